@@ -184,6 +184,10 @@ def formattedSize (feats : Features) (t : IntTy) : Nat :=
 /-- `Options::buffer_size_const::<T, FORMAT>()` -/
 def bufferSizeConst (feats : Features) (t : IntTy) (radix : Nat) : Nat :=
   if radix = 10 then formattedSizeDecimal t else formattedSize feats t
+/-- `Options::buffer_size_const::<T, FORMAT>()` as it is since the repair of the unsigned `+` defect: one more byte
+when the `format` feature is on and the format requires a mantissa sign -/
+def bufferSizeConstFmt (feats : Features) (t : IntTy) (radix : Nat) (reqSign : Bool) : Nat :=
+  bufferSizeConst feats t radix + (if feats.format && reqSign then 1 else 0)
 
 /-! ## compact.rs -/
 
